@@ -861,18 +861,22 @@ pub mod client {
                 .map_err(|_| rustls::CertificateError::BadEncoding)?
                 .1;
 
-            match x509.validity() {
-                x if now < x.not_before => {
-                    return Err(rustls::CertificateError::NotValidYet.into());
-                }
-                x if now > x.not_after => {
-                    return Err(rustls::CertificateError::Expired.into());
-                }
-                _ => {}
+            // Instants are compared by their timestamps: the ordering of `ASN1Time` also
+            // takes the ASN.1 encoding (UTCTime / GeneralizedTime) into account.
+            let now = now.timestamp();
+            let not_before = x509.validity().not_before.timestamp();
+            let not_after = x509.validity().not_after.timestamp();
+
+            if now < not_before {
+                return Err(rustls::CertificateError::NotValidYet.into());
             }
 
-            let validity_period = x509.validity().not_after - x509.validity.not_before;
-            if !matches!(validity_period, Some(x) if x <= Self::SELF_MAX_VALIDITY) {
+            if now > not_after {
+                return Err(rustls::CertificateError::Expired.into());
+            }
+
+            let validity_period = not_after - not_before;
+            if !(0..=Self::SELF_MAX_VALIDITY.whole_seconds()).contains(&validity_period) {
                 return Err(rustls::CertificateError::UnknownIssuer.into());
             }
 
